@@ -96,7 +96,7 @@ impl Property for C04 {
                     } else if st.used_env && env_existential(&case.program) {
                         ":env-with-trait-params"
                     } else if st.co_cycle || (program_has_co_cycle(&case.program) && !goal_is_closed(g)) {
-                        ":coinductive-cycle"
+                        co_qual(g, true)
                     } else {
                         ""
                     };
